@@ -101,7 +101,7 @@ theorem mem_shiftLoop (log mask : Nat) (k : Nat) (tpl : Int) (b : Nat) :
 
 theorem mem_bitsOfHash (length : Nat) (nab : Int) (tpl : Int) (b : Nat) :
     b ∈ bitsOfHash length nab tpl ↔
-      ∃ j : Nat, (j = 0 ∨ (j : Int) < nab) ∧ b = pyAndMask (tpl >>> (j * length.log2)) (length - 1) := by
+      ∃ j : Nat, (j = 0 ∨ (j : Int) < nab) ∧ b = pyAndMask (tpl >>> (j * pyLog2Trunc length)) (length - 1) := by
   unfold bitsOfHash
   simp only [List.mem_cons]
   constructor
@@ -129,5 +129,60 @@ theorem mem_bitsOfHash (length : Nat) (nab : Int) (tpl : Int) (b : Nat) :
       · split
         · rw [mem_shiftLoop]; exact ⟨j, by omega, by omega, rfl⟩
         · omega
+
+/-! ## `int(log2(length))` -/
+
+theorem pyLog2Trunc_of_none (n : Nat)
+    (h : ∀ kt ∈ Gen.C17.log2RoundsUpFrom, ¬ (kt.2 ≤ n ∧ n < 2 ^ kt.1)) : pyLog2Trunc n = n.log2 := by
+  unfold pyLog2Trunc
+  have : Gen.C17.log2RoundsUpFrom.find? (fun kt => decide (kt.2 ≤ n) && decide (n < 2 ^ kt.1)) = none := by
+    rw [List.find?_eq_none]
+    intro kt hk
+    have := h kt hk
+    simpa using this
+  rw [this]
+
+theorem pyLog2Trunc_pow_of (k : Nat) (htab : ∀ kt ∈ Gen.C17.log2RoundsUpFrom, 2 ^ (kt.1 - 1) < kt.2) :
+    pyLog2Trunc (2 ^ k) = k := by
+  rw [pyLog2Trunc_of_none, Nat.log2_two_pow]
+  rintro kt hk ⟨h1, h2⟩
+  have hlt : k < kt.1 := (Nat.pow_lt_pow_iff_right (by omega)).mp h2
+  have : 2 ^ k ≤ 2 ^ (kt.1 - 1) := Nat.pow_le_pow_right (by omega) (by omega)
+  have := htab kt hk
+  omega
+
+/-! ## cardinalities -/
+
+theorem length_toSet_le {α : Type} [DecidableEq α] : ∀ (l : List α), (toSet l).length ≤ l.length
+  | [] => Nat.le_refl _
+  | a :: l => by
+    have ih := length_toSet_le l
+    simp only [toSet]
+    split
+    · simp only [List.length_cons]; omega
+    · simp only [List.length_cons]; omega
+
+theorem length_flatMap_le {α β : Type} (f : α → List β) (c : Nat) :
+    ∀ (l : List α), (∀ a ∈ l, (f a).length ≤ c) → (l.flatMap f).length ≤ l.length * c
+  | [], _ => by simp
+  | a :: l, h => by
+    have ih := length_flatMap_le f c l (fun b hb => h b (List.mem_cons_of_mem _ hb))
+    have h0 := h a (List.mem_cons_self ..)
+    simp only [List.flatMap_cons, List.length_append, List.length_cons, Nat.add_mul, Nat.one_mul]
+    omega
+
+theorem length_shiftLoop (log mask : Nat) : ∀ (k : Nat) (tpl : Int), (shiftLoop log mask k tpl).length = k
+  | 0, _ => rfl
+  | k + 1, tpl => by simp [shiftLoop, length_shiftLoop log mask k]
+
+theorem length_bitsOfHash_le (length : Nat) (nab : Int) (tpl : Int) :
+    (bitsOfHash length nab tpl).length ≤ max 1 nab.toNat := by
+  unfold bitsOfHash
+  simp only [List.length_cons]
+  split
+  · rename_i h; subst h; simp
+  · split
+    · rw [length_shiftLoop]; omega
+    · simp; omega
 
 end ChythonModel.Proofs.C17
